@@ -271,3 +271,24 @@ def _runtime_namespace():
     from . import loopcut
 
     return loopcut.RUNTIME
+
+
+def function_info_real(c):
+    """file:line and sha of a function taken from the live object (functions attached to
+    classes of another module by decorators, e.g. fontTools.subset's _add_method)."""
+    import importlib
+    import inspect
+
+    ensure_repo_on_path()
+    try:
+        for extra in getattr(c, "imports", ()):
+            importlib.import_module(extra)
+        f = unwrap(real(c.module, c.qualname))
+        src, line = inspect.getsourcelines(f)
+        path = os.path.realpath(inspect.getsourcefile(f))
+        if not path.startswith(os.path.realpath(LIB) + os.sep):
+            return None
+        return {"file": "%s:%d" % (os.path.relpath(path, REPO), line), "sha256": hashlib.sha256("".join(src).encode()).hexdigest()[:16],
+                "lines": len(src)}
+    except Exception:
+        return None
